@@ -196,10 +196,13 @@ MANIFEST = {
                   "to_xmi -> load_cas_from_xmi -> to_xmi is executed for pretty_print x sink combinations and, inside Coq, the "
                   "first document is compared with the model writer's, the loaded CAS with the denotation, with the model "
                   "reader's result and with the model's canonical content, and the second document with the first (infoset).",
-    "level_note": "Partial: the reader's success is a hypothesis of the round-trip theorem (no totality theorem for the reader "
-                  "model; evaluated on every case); re-save is proved over canonical content (equal content => the same "
-                  "elements, as a Permutation of the document). Trusted: Coq kernel + vm_compute; models Reach.v/Xmi.v/XmiLoad.v/XmiDoc.v/Lex.v/"
-                  "Offsets.v; xml.etree; harness/scen.py; float contract.",
+    "level_note": "The round trip is proved in the exists form (C01_xmi_roundtrip: the reader model succeeds on every document "
+                  "the writer model emits, under input well-formedness wf_rt_totalb, and yields the canonical content of the "
+                  "saved CAS; ids kept); re-save is proved over canonical content (equal content => the same elements, as a "
+                  "Permutation of the document). Still open: load_produces_wf (a CAS that was itself loaded satisfies the writer's "
+                  "premises) - its conclusion is evaluated on every case. Byte layer (escaping, prefixes, whitespace, float lexemes) "
+                  "below the abstract documents; sinks and pretty_print compared byte-wise by the oracle. Trusted: Coq kernel + "
+                  "vm_compute; models Reach.v/Xmi.v/XmiLoad.v/XmiDoc.v/Lex.v/Offsets.v; xml.etree; harness/scen.py; float contract.",
     "technique": "Coq proof over an executable Gallina model + in-Coq behavioural correspondence + byte-level oracle for sinks",
     "design_ref": "DESIGN.md section 5, C01; section 4.4",
 }
